@@ -456,3 +456,167 @@ Proof.
     cbn [s_next set_revs sp_next sp_set_snaps sp_set_cur]. rewrite R2. apply Nu.
 Qed.
 End Steps.
+
+(** * cache eviction and reopen *)
+Section Steps2.
+Variable e : env.
+
+Lemma ObjOk_fl_ext m m' a o :
+  (forall k, fl_st m' a k = fl_st m a k) -> fl_acct m' a = fl_acct m a -> ObjOk m a o -> ObjOk m' a o.
+Proof.
+  intros Hs Ha [H1 H2 H3 H4 H5]. constructor; try assumption.
+  - intros k v Hk. rewrite Hs. apply H2. exact Hk.
+  - rewrite Ha. exact H4.
+Qed.
+
+(** with a coherent cache, dropping cache entries changes no flushed view *)
+Lemma evict_fl m a layer k : Inv m -> Coh m ->
+  let m' := do_evict m a layer k in
+  (forall a' k', fl_st m' a' k' = fl_st m a' k') /\ (forall a', fl_acct m' a' = fl_acct m a') /\
+  Coh m' /\ c_code (s_cache m') = [] /\
+  (forall a' x, aget a' (c_acct (s_cache m')) = Some x -> ac_ch x = None).
+Proof.
+  intros I C. cbv zeta. unfold do_evict.
+  pose proof (inv_ccode m I) as Hcc.
+  assert (Hsame : (forall a' k', fl_st m a' k' = fl_st m a' k') /\ (forall a', fl_acct m a' = fl_acct m a') /\
+                  Coh m /\ c_code (s_cache m) = [] /\
+                  (forall a' x, aget a' (c_acct (s_cache m)) = Some x -> ac_ch x = None)).
+  { repeat split; try assumption; try apply C. apply (inv_cacct m I). }
+  assert (Hid : set_cache m (s_cache m) = m) by (destruct m; reflexivity).
+  destruct (layer =? 0) eqn:E0; [| destruct (layer =? 1) eqn:E1; [| destruct (layer =? 2) eqn:E2; [| destruct (layer =? 3) eqn:E3]]].
+  - (* inner account *)
+    split; [intros a' k'; reflexivity|]. split; [| split; [| split; [exact Hcc|]]].
+    + intros a'. unfold fl_acct. cbn [s_cache set_cache c_acct s_db]. rewrite aget_adel.
+      destruct (a' =? a) eqn:E; [| reflexivity]. apply N.eqb_eq in E. subst a'.
+      destruct (aget a (c_acct (s_cache m))) as [x|] eqn:Ex; [| reflexivity].
+      exact (coh_acct m C a x Ex).
+    + constructor; cbn [s_cache set_cache c_acct c_st s_db s_pend]; try apply C.
+      intros a' x. rewrite aget_adel. destruct (a' =? a); [discriminate | apply (coh_acct m C)].
+    + intros a' x. cbn [s_cache set_cache c_acct]. rewrite aget_adel. destruct (a' =? a); [discriminate | apply (inv_cacct m I)].
+  - (* the account's whole state cache *)
+    split; [| split; [intros a'; reflexivity | split; [| split; [exact Hcc | apply (inv_cacct m I)]]]].
+    + intros a' k'. unfold fl_st, cached_state. cbn [s_cache set_cache c_st s_db]. rewrite aget_adel.
+      destruct (a' =? a) eqn:E; [| reflexivity]. apply N.eqb_eq in E. subst a'.
+      destruct (aget a (c_st (s_cache m))) as [cm|] eqn:Ec; [| reflexivity].
+      destruct (kget k' cm) as [v|] eqn:Ek; [| reflexivity].
+      symmetry. exact (coh_st m C a cm k' v Ec Ek).
+    + constructor; cbn [s_cache set_cache c_acct c_st s_db s_pend]; try apply C.
+      intros a' cm k' v. rewrite aget_adel. destruct (a' =? a); [discriminate | apply (coh_st m C)].
+  - (* one key *)
+    destruct (aget a (c_st (s_cache m))) as [cm|] eqn:Ec; [| rewrite Hid; exact Hsame].
+    split; [| split; [intros a'; reflexivity | split; [| split; [exact Hcc | apply (inv_cacct m I)]]]].
+    + intros a' k'. unfold fl_st, cached_state. cbn [s_cache set_cache c_st s_db]. rewrite aget_aput.
+      destruct (a' =? a) eqn:E; [| reflexivity]. apply N.eqb_eq in E. subst a'. rewrite Ec, kget_kdel.
+      destruct (bytes_eqb k' k) eqn:Ek; [| reflexivity]. apply bytes_eqb_spec in Ek. subst k'.
+      destruct (kget k cm) as [v|] eqn:Ev; [| reflexivity].
+      symmetry. exact (coh_st m C a cm k v Ec Ev).
+    + constructor; cbn [s_cache set_cache c_acct c_st s_db s_pend]; try apply C.
+      intros a' cm' k' v. rewrite aget_aput. destruct (a' =? a) eqn:E.
+      * apply N.eqb_eq in E. subst a'. intro H. inversion H; subst cm'. rewrite kget_kdel.
+        destruct (bytes_eqb k' k); [discriminate | apply (coh_st m C a cm k' v Ec)].
+      * apply (coh_st m C).
+  - (* code: nothing cached *)
+    assert (Hc : mkCache (c_acct (s_cache m)) (c_st (s_cache m)) (adel a (c_code (s_cache m))) = s_cache m).
+    { rewrite Hcc. destruct (s_cache m) as [x y z]. simpl in *. subst z. reflexivity. }
+    rewrite Hc, Hid. exact Hsame.
+  - rewrite Hid. exact Hsame.
+Qed.
+
+Lemma step_evict m s a layer k : Sim e m s -> wf_thm_b s (Evict a layer k) = true -> step_ok e m s (Evict a layer k).
+Proof.
+  intros S Hwf. unfold step_ok. cbn [step spec_step]. split; [| reflexivity].
+  destruct S as [I C Mc Mf Sn Nu].
+  destruct (wf_thm_nopend s _ (nu_pend m s Nu) Hwf) as [Hw _].
+  unfold wf_op_b in Hw. rewrite (nu_pend m s Nu) in Hw. cbn [andb] in Hw.
+  destruct (evict_fl m a layer k I C) as [E1 [E2 [E3 [E4 E5]]]].
+  set (m' := do_evict m a layer k) in *.
+  assert (Hf : s_db m' = s_db m /\ s_objs m' = s_objs m /\ s_chg m' = s_chg m /\ s_revs m' = s_revs m /\
+               s_next m' = s_next m /\ s_prev m' = s_prev m /\ s_min m' = s_min m /\ s_max m' = s_max m).
+  { unfold m', do_evict. repeat split. }
+  destruct Hf as [G1 [G2 [G3 [G4 [G5 [G6 [G7 G8]]]]]]].
+  assert (Hcs : forall a' k', cur_st m' a' k' = cur_st m a' k').
+  { intros a' k'. unfold cur_st, obj_st. rewrite G2. destruct (aget a' (s_objs m)) as [o|]; [| apply E1].
+    destruct (kget k' (o_dst o)); [reflexivity|]. destruct (kget k' (o_ost o)); [reflexivity | apply E1]. }
+  assert (Hca : forall a', cur_oacct m' a' = cur_oacct m a').
+  { intros a'. unfold cur_oacct. rewrite G2. destruct (aget a' (s_objs m)); [reflexivity | apply E2]. }
+  constructor.
+  - destruct I as [J1 J2 J3 J4 J5 J6]. constructor; rewrite ?G1, ?G2; try assumption.
+    intros a' o Ho. apply (ObjOk_fl_ext m m' a' o); [intro k'; apply E1 | apply E2 | apply J2; exact Ho].
+  - exact E3.
+  - destruct Mc as [M1 M2]. split; [intros a' k'; rewrite Hcs; apply M1 | intros a'; rewrite Hca; apply M2].
+  - destruct Mf as [M1 M2]. split; [intros a' k'; rewrite E1; apply M1 | intros a'; rewrite E2; apply M2].
+  - destruct Sn as [S1 S2 S3 S4]. constructor; rewrite ?G4, ?G5, ?G3; try assumption.
+    intros id len S0 Ha Hb. exfalso.
+    (* no live snapshot while an eviction happens *)
+    apply (alookup_In N.eqb N_eqb_spec) in Hb.
+    rewrite forallb_forall in Hw. specialize (Hw _ Hb). discriminate.
+  - apply (nums_frame m); assumption.
+Qed.
+
+Lemma step_reopen m s : Sim e m s -> step_ok e m s Reopen.
+Proof.
+  intros [I C Mc Mf Sn Nu]. unfold step_ok. cbn [step spec_step]. unfold do_reopen.
+  destruct Nu as [N1 N2 N3 N4 N5 N6 N7 N8].
+  (* the running root survives: it is the root of the journal of the current height *)
+  assert (Hre : exists prev,
+            (if d_max (s_db m) =? 0
+             then (mkSt (s_db m) cache0 [] [] 0 [] 0 None zero32 (d_min (s_db m)) (d_max (s_db m)) (s_bad m), ORes R_ok)
+             else match aget (d_max (s_db m)) (d_jnl (s_db m)) with
+                  | Some jn => (mkSt (s_db m) cache0 [] [] 0 [] 0 None (j_root jn) (d_min (s_db m)) (d_max (s_db m)) (s_bad m), ORes R_ok)
+                  | None => (set_bad (mkSt (s_db m) cache0 [] [] 0 [] 0 None zero32 (d_min (s_db m)) (d_max (s_db m)) (s_bad m)), ORes R_err)
+                  end) =
+            (mkSt (s_db m) cache0 [] [] 0 [] 0 None prev (d_min (s_db m)) (d_max (s_db m)) (s_bad m), ORes R_ok) /\
+            prev = s_prev m).
+  { rewrite N4. destruct N8 as [[A B] | [A [jn [B D]]]].
+    - rewrite A. exists zero32. split; [reflexivity | symmetry; exact B].
+    - destruct (s_max m =? 0) eqn:E; [apply N.eqb_eq in E; contradiction|].
+      rewrite B. exists (j_root jn). split; [reflexivity | exact D]. }
+  destruct Hre as [prev [Hre Hprev]]. rewrite Hre. subst prev.
+  set (m' := mkSt (s_db m) cache0 [] [] 0 [] 0 None (s_prev m) (d_min (s_db m)) (d_max (s_db m)) (s_bad m)).
+  assert (Hfl : forall a k, fl_st m' a k = fl_st m a k).
+  { intros a k. rewrite (fl_st_coh m a k C). reflexivity. }
+  assert (Hfa : forall a, fl_acct m' a = fl_acct m a).
+  { intros a. rewrite (fl_acct_coh m a C). reflexivity. }
+  split; [| reflexivity].
+  constructor.
+  - constructor; cbn [s_objs s_db s_cache c_code c_acct cache0 m']; try (apply I).
+    + constructor.
+    + intros a o H. discriminate.
+    + reflexivity.
+    + intros a x H. discriminate.
+  - constructor; cbn [s_cache s_pend c_st c_acct cache0 m']; try reflexivity; intros; discriminate.
+  - cbn [sp_cur sp_set_snaps sp_clear]. destruct Mf as [F1 F2]. split.
+    + intros a k. change (cur_st m' a k) with (fl_st m' a k). rewrite Hfl. apply F1.
+    + intros a. change (cur_oacct m' a) with (fl_acct m' a). rewrite Hfa. apply F2.
+  - cbn [sp_fl sp_set_snaps sp_clear]. destruct Mf as [F1 F2]. split.
+    + intros a k. rewrite Hfl. apply F1.
+    + intros a. rewrite Hfa. apply F2.
+  - constructor; cbn [s_revs s_next s_chg sp_snaps sp_set_snaps m'].
+    + reflexivity.
+    + intros id len [].
+    + constructor.
+    + intros id len S0 H. discriminate.
+  - constructor; cbn [s_next s_max s_min s_prev s_db sp_pend sp_next sp_max sp_min sp_prev sp_set_snaps sp_clear m'].
+    + exact N1.
+    + reflexivity.
+    + rewrite N4. exact N3.
+    + reflexivity.
+    + unfold min_rel. cbn [s_min sp_max sp_min sp_set_snaps sp_clear m'].
+      destruct N7 as [N7 | [A [B D]]].
+      * rewrite N7. exact N5.
+      * destruct N5 as [N5 | [A' [B' D']]]; [| rewrite A in D'; discriminate].
+        assert (d_min (s_db m) = 0 \/ d_min (s_db m) = 1) by lia.
+        destruct H as [H | H]; rewrite H; [left; congruence | right; repeat split; congruence].
+    + exact N6.
+    + left. reflexivity.
+    + rewrite N4. exact N8.
+Qed.
+
+(** Commit without a flushed block: refused, nothing changes *)
+Lemma step_commit_nopend m s h : Sim e m s -> step_ok e m s (Commit h).
+Proof.
+  intros S. unfold step_ok. cbn [step spec_step]. unfold do_commit.
+  rewrite (coh_pend m (sim_coh e m s S)), (nu_pend m s (sim_num e m s S)).
+  split; [exact S | reflexivity].
+Qed.
+End Steps2.
